@@ -171,7 +171,8 @@ func (t *SymbolTable) Verify() error {
 func (t *SymbolTable) ensureSingleDefs() error {
 	var errs error
 
-	for a, e := range t.terminals.table.All() {
+	for _, a := range t.sortedTerminals() {
+		e, _ := t.terminals.table.Get(a)
 		if count := len(e.definitions); count == 0 {
 			errs = errors.Append(errs, fmt.Errorf("no definition for terminal %s", a))
 		} else if count > 1 {
@@ -193,14 +194,22 @@ func (t *SymbolTable) ensureDistinctDefs() error {
 	var errs error
 
 	reverse := make(map[string][]*TerminalDef)
-	for _, e := range t.terminals.table.All() {
+	for _, a := range t.sortedTerminals() {
+		e, _ := t.terminals.table.Get(a)
 		if len(e.definitions) == 1 {
 			def := e.definitions[0]
 			reverse[def.Value] = append(reverse[def.Value], def)
 		}
 	}
 
-	for val, defs := range reverse {
+	vals := make([]string, 0, len(reverse))
+	for val := range reverse {
+		vals = append(vals, val)
+	}
+	sort.Quick(vals, generic.NewCompareFunc[string]())
+
+	for _, val := range vals {
+		defs := reverse[val]
 		if len(defs) > 1 {
 			poses := generic.Transform(defs, func(def *TerminalDef) string {
 				return fmt.Sprintf("  %s: %s", def.Pos, def.Terminal)
@@ -213,6 +222,19 @@ func (t *SymbolTable) ensureDistinctDefs() error {
 	}
 
 	return errs
+}
+
+// sortedTerminals returns the terminals in the symbol table in a deterministic order.
+// The iteration order of the underlying hash table is not specified.
+func (t *SymbolTable) sortedTerminals() []grammar.Terminal {
+	all := make([]grammar.Terminal, 0, t.terminals.table.Size())
+	for a := range t.terminals.table.All() {
+		all = append(all, a)
+	}
+
+	sort.Quick(all, grammar.CmpTerminal)
+
+	return all
 }
 
 // ensureStartSymbol ensures a production rule exists with the start symbol as the head non-terminal.
